@@ -263,6 +263,10 @@ class SymCtx(_BaseCtx):
     def observe(self, label, value):
         self.observed[label] = value
 
+    def shares_memory(self, result, arg, argpos=0):
+        """does the result share (writable) storage with the argument?  symbolic run: buffer identity of the shim arrays"""
+        return bool(symnp.shares_memory(_data_of(result), _data_of(arg)))
+
     def model_inputs(self, m):
         out = {}
         for k, v in self.inputs.items():
@@ -425,6 +429,12 @@ class ConcCtx(_BaseCtx):
         rtol, atol = tol
         return a <= b + (atol + rtol * abs(b))
 
+    def shares_memory(self, result, arg, argpos=0):
+        if self.mode == 'shim':
+            return bool(symnp.shares_memory(_data_of(result), _data_of(arg)))
+        sh = getattr(wire.worker(), 'last_shares', [])
+        return bool(sh[argpos]) if argpos < len(sh) else False
+
     def check(self, label, claim, info=None):
         self.nchecks += 1
         ok = bool(claim)
@@ -439,6 +449,14 @@ class ConcCtx(_BaseCtx):
 
     def ev(self, m, v):
         return _jsonable(v)
+
+
+def _data_of(o):
+    if isinstance(o, symxr.DataArray):
+        o = o.data
+    if isinstance(o, symda.Array):
+        o = o._whole if o._whole is not None else o.compute()
+    return o
 
 
 class ShimConcCtx(ConcCtx):
